@@ -507,8 +507,119 @@ P_INTENS = XYZ + [("Intensity", ("ScaledInteger", 0, 1000, 0.5, 1.0)), ("IsInten
 
 def pop_scenarios(tier="quick"):
     return [
-        Scenario("pop_point: Cartesian + invalid state + row, any raw values", pop_point_scenario(P_STATE), pop_point_claims, max_paths=600, time_budget=600),
-        Scenario("pop_point: colour + invalid flag, any raw values, normalisation on/off", pop_point_scenario(P_COLOR), pop_point_claims, max_paths=1200, time_budget=900),
-        Scenario("pop_point: scaled-integer intensity + invalid flag, any raw values, normalisation on/off", pop_point_scenario(P_INTENS), pop_point_claims, max_paths=600, time_budget=600),
-        Scenario("pop_point: spherical + invalid state + column, any raw values", pop_point_scenario(SPH_PROTO), pop_point_claims, max_paths=600, time_budget=600),
+        Scenario("pop_point: Cartesian + invalid state + row, any raw values", pop_point_scenario(P_STATE), pop_point_claims, replayer=PopReplay(P_STATE), max_paths=600, time_budget=600),
+        Scenario("pop_point: colour + invalid flag, any raw values, normalisation on/off", pop_point_scenario(P_COLOR), pop_point_claims, replayer=PopReplay(P_COLOR), max_paths=1200, time_budget=900),
+        Scenario("pop_point: scaled-integer intensity + invalid flag, any raw values, normalisation on/off", pop_point_scenario(P_INTENS), pop_point_claims, replayer=PopReplay(P_INTENS), max_paths=600, time_budget=600),
+        Scenario("pop_point: spherical + invalid state + column, any raw values", pop_point_scenario(SPH_PROTO), pop_point_claims, replayer=PopReplay(SPH_PROTO), max_paths=600, time_budget=600),
     ]
+
+
+# ------------------------------------------------------------------------------------------------ native replay for pop_point
+from .spec_abs import AbsReaderReplay, native_abs_reader
+from .spec_packet import rust_dtype
+from .replay import mval, rust_bytes
+from .spec_page import READER_DRIVER, FRESH_OVERRIDE
+
+QR_PUSH_HELPER = r"""
+#[cfg(test)]
+impl<'a, T: std::io::Read + std::io::Seek> QueueReader<'a, T> {
+    pub(crate) fn verif_push(&mut self, i: usize, v: RecordValue) { self.queues[i].push_back(v); }
+}
+"""
+
+SIMPLE_HELPER = r"""
+#[cfg(test)]
+impl<'a, T: std::io::Read + std::io::Seek> PointCloudReaderSimple<'a, T> {
+    pub(crate) fn verif_push(&mut self, i: usize, v: RecordValue) { self.queue_reader.verif_push(i, v); }
+    pub(crate) fn verif_pop(&mut self) -> Result<Point> { self.pop_point() }
+}
+"""
+
+
+class PopReplay(AbsReaderReplay):
+    def __init__(self, proto):
+        self.proto = proto
+        super().__init__(None, None, None)
+
+    def extract(self, I, model, s):
+        self.extra = lambda m, ss: dict(raws=[mval(m, z3.fpToIEEEBV(r)) if z3.is_fp(r) else mval(m, r) for r in ss.raw],
+                                        ni=bool(mval(m, z3.If(ss.ni, U64(1), U64(0)))), nc=bool(mval(m, z3.If(ss.nc, U64(1), U64(0)))),
+                                        pc_offset=mval(m, z3.BitVec("pc_offset", 64)))
+        return super().extract(I, model, s)
+
+    def run(self, I, scenario, claim_name, pre):
+        from .replay import HELPERS, native_panicked, parse_kv, run_rust_test
+        proto = self.proto
+        recs = ", ".join("crate::Record { name: crate::RecordName::%s, data_type: %s }" % (nm, rust_dtype(d)) for nm, d in proto)
+        pushes = ""
+        for j, ((nm, d), x) in enumerate(zip(proto, pre["raws"])):
+            if d[0] == "Double":
+                pushes += "it.verif_push(%d, crate::RecordValue::Double(f64::from_bits(%d))); " % (j, x)
+            else:
+                xs = x - (1 << 64) if x >= (1 << 63) else x
+                pushes += "it.verif_push(%d, crate::RecordValue::%s(%d)); " % (j, d[0], xs)
+        op = ("let mut pc = crate::PointCloud::default(); pc.prototype = vec![%s]; pc.records = 10; pc.file_offset = %d; "
+              "match crate::pc_reader_simple::PointCloudReaderSimple::new(&pc, &mut r) { Err(_) => println!(\"VR new=err\"), Ok(mut it) => { println!(\"VR new=ok\"); "
+              "it.normalize_intensity(%s); it.normalize_color(%s); %s "
+              "match it.verif_pop() { Err(_) => println!(\"VR res=err\"), Ok(p) => { println!(\"VR res=ok\"); "
+              "match p.cartesian { crate::CartesianCoordinate::Valid { x, y, z } => println!(\"VR cart=Valid:{}:{}:{}\", x.to_bits(), y.to_bits(), z.to_bits()), "
+              "crate::CartesianCoordinate::Direction { x, y, z } => println!(\"VR cart=Direction:{}:{}:{}\", x.to_bits(), y.to_bits(), z.to_bits()), crate::CartesianCoordinate::Invalid => println!(\"VR cart=Invalid\") } "
+              "match p.spherical { crate::SphericalCoordinate::Valid { range, azimuth, elevation } => println!(\"VR sph=Valid:{}:{}:{}\", range.to_bits(), azimuth.to_bits(), elevation.to_bits()), "
+              "crate::SphericalCoordinate::Direction { azimuth, elevation } => println!(\"VR sph=Direction:{}:{}\", azimuth.to_bits(), elevation.to_bits()), crate::SphericalCoordinate::Invalid => println!(\"VR sph=Invalid\") } "
+              "match &p.color { Some(c) => println!(\"VR col=Some:{}:{}:{}\", c.red.to_bits(), c.green.to_bits(), c.blue.to_bits()), None => println!(\"VR col=None\") } "
+              "match p.intensity { Some(i) => println!(\"VR inten=Some:{}\", i.to_bits()), None => println!(\"VR inten=None\") } "
+              "println!(\"VR row={} column={}\", p.row, p.column); } } } }"
+              % (recs, pre["pc_offset"], "true" if pre["ni"] else "false", "true" if pre["nc"] else "false", pushes))
+        drv = READER_DRIVER % dict(helpers=HELPERS, dev=rust_bytes(pre["dev"]), cached=pre["cached"], offset=pre["offset"], op=op, fault_at=-1, shorts="")
+        code = {"paged_reader.rs": drv, "queue_reader.rs": QR_PUSH_HELPER, "pc_reader_simple.rs": SIMPLE_HELPER}
+        rc, out = run_rust_test(I.crate_dir, None, code)
+        kv = parse_kv(out)
+        info = dict(pre={k: (len(v) if isinstance(v, bytes) else v) for k, v in pre.items()}, rust=drv)
+        pan = native_panicked(out)
+        if claim_name == "no panic":
+            return (pan is not None and "pre_offset" in kv), "native: " + (pan or "no panic"), info
+        if pan or "post_offset" not in kv or "new" not in kv:
+            return False, "native run did not complete: " + (pan or out[-300:]), info
+        if kv["new"] != "ok":
+            return False, "natively the iterator cannot be created for this device", info
+        # rebuild the observation; division in the expectation is the REAL division natively
+        s = native_abs_reader(pre, kv)
+        s.proto = proto
+        from .models import OkV, ErrV
+        s.new = OkV(None)
+        s.ni, s.nc = z3.BoolVal(pre["ni"]), z3.BoolVal(pre["nc"])
+        s.raw = [z3.fpBVToFP(z3.BitVecVal(x, 64), F64) if d[0] == "Double" else z3.BitVecVal(x, 64) for (nm, d), x in zip(proto, pre["raws"])]
+        if kv.get("res") == "ok":
+            names = I.struct_fields["Point"]
+            pf = [None] * len(names)
+
+            def mk(kind_str, ety):
+                parts = kind_str.split(":")
+                return enum_variant(I, ety, parts[0], [z3.fpBVToFP(z3.BitVecVal(int(x), 64), F64) for x in parts[1:]])
+            pf[names.index("cartesian")] = mk(kv["cart"], "CartesianCoordinate")
+            pf[names.index("spherical")] = mk(kv["sph"], "SphericalCoordinate")
+            cparts = kv["col"].split(":")
+            pf[names.index("color")] = SomeV(Agg("struct", [z3.fpBVToFP(z3.BitVecVal(int(x), 32), F32) for x in cparts[1:]], "Color")) if cparts[0] == "Some" else NoneV()
+            iparts = kv["inten"].split(":")
+            pf[names.index("intensity")] = SomeV(z3.fpBVToFP(z3.BitVecVal(int(iparts[1]), 32), F32)) if iparts[0] == "Some" else NoneV()
+            pf[names.index("row")] = z3.BitVecVal(int(kv["row"]), 64)
+            pf[names.index("column")] = z3.BitVecVal(int(kv["column"]), 64)
+            s.res = OkV(Agg("struct", pf, "Point"))
+        else:
+            s.res = ErrV(None)
+        vals = {}
+        realdiv = lambda a, b: z3.fpDiv(RNE, a, b)
+        for name, c in scenario.claims(s, I):
+            if not isinstance(c, bool):
+                c = z3.substitute_funs(c, (z3.Function("uf_fdiv", F64, F64, F64), realdiv(z3.Var(0, F64), z3.Var(1, F64)))) if hasattr(z3, "substitute_funs") else c
+                c = z3.simplify(c)
+            else:
+                c = z3.BoolVal(c)
+            vals[name] = True if z3.is_true(c) else (False if z3.is_false(c) else None)
+        info["native_claims"] = vals
+        if vals.get(claim_name) is False:
+            return True, "claim is false on the native result", info
+        other = [k for k, x in vals.items() if x is False]
+        if other:
+            return True, "on the native run the claim '%s' is false (the named claim evaluates to %r)" % (other[0], vals.get(claim_name)), info
+        return False, "claim evaluates to %r natively" % (vals.get(claim_name),), info
